@@ -1152,7 +1152,7 @@ func timeExcluded(v interface{}) string {
 func main() {
 	o := vh.ParseFlags()
 	run := vh.NewRun("C13", o)
-	run.Rule = "one case = one random value of one of 8 catalogue struct types (68 columns: ints/uints of every width, floats, bool, string, named scalars, []byte, time, pointers, binary/string/json tags, implicitnull, Valuer/Scanner type), re-encoded into 4 rows over random MySQL column types x {text, prepared, binlog} paths plus 1 malformed row, a permuted binlog row, and 4 filters (own values, another value's, pointer/nil variants, mistyped) x 3 rows through MakeTester and the protobuf round trip; non-trivial = at least one non-NULL column and the value not seen before; distinct by the printed struct"
+	run.Rule = "one case = one random value of one of 15 catalogue struct types (ints/uints of every width, floats, bool, string, named scalars, []byte, time, pointers, binary/string/json tags, implicitnull, Valuer/Scanner types incl. one that reads NULL as a non-zero value; 3 tables oracle-only), re-encoded into 4 rows over random MySQL column types x {text, prepared, binlog} paths plus 1 malformed row (time columns: texts around what mysql.parseDateTime accepts), a permuted binlog row, and 4 filters (own values, another value's, pointer/nil variants, mistyped) x 3 rows through MakeTester and the protobuf round trip; plus, once per run, the dispatch tables extracted from the source and the registration verdict of every (type, pointer, tag) combination; non-trivial = at least one non-NULL column and the value not seen before; distinct by the printed struct"
 	schema := newSchema()
 	r := vh.NewRng(o.Seed)
 	// Which Valuer the tree under test has (proposed repair C13-fix-5: a non-nil pointer handed in for a column
